@@ -387,6 +387,15 @@ fn build(s: &S, vals: &[V]) -> ArrayRef {
             let values = StringArray::from_iter_values((0..*n).map(|i| format!("S{i}")));
             Arc::new(DictionaryArray::<Int32Type>::try_new(keys, Arc::new(values)).unwrap())
         }
+        S::Opt(_, inner) if **inner == S::BoolSliced => {
+            // nullable boolean column held as a sliced array: validity and values share the bit offset 3
+            let mut padded: Vec<Option<bool>> = vec![Some(true), None, Some(false)];
+            padded.extend(vals.iter().map(|v| match v {
+                V::Some(x) => Some(matches!(**x, V::Bool(true))),
+                _ => None,
+            }));
+            Arc::new(BooleanArray::from(padded).slice(3, vals.len()))
+        }
         S::Opt(_, inner) => {
             let d = default_v(inner);
             let filled: Vec<V> = vals.iter().map(|v| match v { V::Some(x) => (**x).clone(), V::None => d.clone(), _ => panic!("opt") }).collect();
@@ -704,14 +713,27 @@ fn ocf_header_schema(bytes: &[u8]) -> Option<String> {
 ///  * `kf:avro-union-counts-not-reset` — a union column read in more than one batch (rows > batch size 7)
 fn kf_tags(line: &str) -> String {
     let t: Vec<&str> = line.split(' ').collect();
-    if t.len() < 4 || (t[1] != "ocf" && t[1] != "ocfz") {
+    let si = match t.get(1).copied() {
+        Some("avro") | Some("ocf") => 2,
+        Some("soe") | Some("ocfz") => 3,
+        _ => return String::new(),
+    };
+    if t.len() < si + 2 {
         return String::new();
     }
-    let si = if t[1] == "ocfz" { 3 } else { 2 };
     let top = parse_s(t[si]);
+    let mut out = String::new();
+    // `kf:avro-list-sliced-boolean-values`: an array / map whose values child is a BooleanArray with a
+    // non-zero bit offset (`Array::offset() != 0`): List/Map/FixedSizeList encoders subtract that offset
+    // from row indices that are already relative to the child
+    if has(&top, &|x: &S| matches!(x, S::Arr(i) | S::Map(i) if matches!(**i, S::BoolSliced) || matches!(&**i, S::Opt(_, j) if **j == S::BoolSliced))) {
+        out.push_str(" kf:avro-list-sliced-boolean-values");
+    }
+    if t[1] != "ocf" && t[1] != "ocfz" {
+        return out;
+    }
     let regenerated = has(&top, &|x: &S| matches!(x, S::Opt(false, _) | S::Enum(_)));
     let rows: usize = t[si + 1].split('/').map(|b| if b == "-" { 0 } else { b.split('|').count() }).sum();
-    let mut out = String::new();
     if regenerated {
         out.push_str(" kf:avro-ocf-header-schema-regenerated kf:avro-reader-trailing-block-bytes-hang");
     } else if has(&top, &|x: &S| matches!(x, S::Union(_))) && rows > OCF_BATCH_SIZE {
@@ -924,7 +946,7 @@ fn gen_schema(rng: &mut Rng, depth: usize, allow_opt: bool, allow_union: bool) -
     let r = rng.below(if depth == 0 { 10 } else { 17 });
     match r {
         0 => {
-            if rng.chance(1, 3) { S::BoolSliced } else { S::Bool }
+            if rng.chance(1, 4) { S::BoolSliced } else { S::Bool }
         }
         1 => S::Int,
         2 => S::Long,
@@ -957,7 +979,7 @@ fn gen_schema(rng: &mut Rng, depth: usize, allow_opt: bool, allow_union: bool) -
             while kinds.len() < n && tries < 20 {
                 tries += 1;
                 let c = gen_schema(rng, depth - 1, false, false);
-                let dup = kinds.iter().any(|k| std::mem::discriminant(k) == std::mem::discriminant(&c) && !matches!(c, S::Fixed(_) | S::Enum(_) | S::Rec(_)));
+                let dup = kinds.iter().any(|k| std::mem::discriminant(&unslice(k)) == std::mem::discriminant(&unslice(&c)) && !matches!(c, S::Fixed(_) | S::Enum(_) | S::Rec(_)));
                 if !dup {
                     kinds.push(c);
                 }
@@ -1132,8 +1154,9 @@ fn main() {
     let mut sink = Sink::new(&args.out);
     if args.mode == "replay" {
         for line in read_cases(args.replay.as_ref().unwrap()) {
+            let tags = format!("replay{}", kf_tags(&line));
             let a = run_case(&line, &mut sink, "replay");
-            sink.case(line, a, "replay");
+            sink.case(line, a, &tags);
         }
     } else {
         let mut rng = Rng::new(args.seed ^ 0xC17A);
